@@ -246,17 +246,93 @@ def red3 [Add α] [Zero α] (k : List α → List α → List α → α) : MVec 
 section Ops
 variable [Add α] [Mul α] [Zero α] [One α]
 
-def axpy (alias : Bool) (a : α) (r x : MVec α) : MVec α := map2 (axpyK alias a) r x
-def scale (alias : Bool) (s : α) (r x : MVec α) : MVec α := map2 (scaleK alias s) r x
-def componentProduct (rx ry : Bool) (r x y : MVec α) : MVec α := map3 (cprodK rx ry) r x y
-def componentInvert [Div α] (alias : Bool) (s : α) (r x : MVec α) : MVec α := map2 (cinvK alias s) r x
-/-- `Container::_copy_content`: nothing happens for `this == &x` (and `MemoryPool::copy` returns for equal
+/-! The member functions recurse EXPLICITLY, exactly as `TupleVector` / `PowerVector` do
+(`first().op(x.first(), args…); rest().op(x.rest(), args…)`): every argument is handed on by name at every
+recursive call, so an argument dropped or replaced on the way down is a different function, and the theorems
+"composed op = flat kernel with the SAME arguments on the flattened data" (Props/C04.lean) are proof
+obligations about each of these hand-overs. -/
+
+/-- `axpy(x, alpha)` -/
+def axpy (alias : Bool) (a : α) : MVec α → MVec α → MVec α
+  | dense r, dense x => dense (axpyK alias a r x)
+  | blocked b r, blocked _ x => blocked b (axpyK alias a r x)
+  | tupleOne f, tupleOne g => tupleOne (axpy alias a f g)
+  | tupleCons f r, tupleCons g s => tupleCons (axpy alias a f g) (axpy alias a r s)
+  | powerOne f, powerOne g => powerOne (axpy alias a f g)
+  | powerCons f r, powerCons g s => powerCons (axpy alias a f g) (axpy alias a r s)
+  | r, _ => r
+
+/-- `scale(x, alpha)` -/
+def scale (alias : Bool) (a : α) : MVec α → MVec α → MVec α
+  | dense r, dense x => dense (scaleK alias a r x)
+  | blocked b r, blocked _ x => blocked b (scaleK alias a r x)
+  | tupleOne f, tupleOne g => tupleOne (scale alias a f g)
+  | tupleCons f r, tupleCons g s => tupleCons (scale alias a f g) (scale alias a r s)
+  | powerOne f, powerOne g => powerOne (scale alias a f g)
+  | powerCons f r, powerCons g s => powerCons (scale alias a f g) (scale alias a r s)
+  | r, _ => r
+
+/-- `component_invert(x, alpha)` -/
+def componentInvert [Div α] (alias : Bool) (a : α) : MVec α → MVec α → MVec α
+  | dense r, dense x => dense (cinvK alias a r x)
+  | blocked b r, blocked _ x => blocked b (cinvK alias a r x)
+  | tupleOne f, tupleOne g => tupleOne (componentInvert alias a f g)
+  | tupleCons f r, tupleCons g s => tupleCons (componentInvert alias a f g) (componentInvert alias a r s)
+  | powerOne f, powerOne g => powerOne (componentInvert alias a f g)
+  | powerCons f r, powerCons g s => powerCons (componentInvert alias a f g) (componentInvert alias a r s)
+  | r, _ => r
+
+/-- `component_product(x, y)` -/
+def componentProduct (rx ry : Bool) : MVec α → MVec α → MVec α → MVec α
+  | dense r, dense x, dense y => dense (cprodK rx ry r x y)
+  | blocked b r, blocked _ x, blocked _ y => blocked b (cprodK rx ry r x y)
+  | tupleOne f, tupleOne g, tupleOne h => tupleOne (componentProduct rx ry f g h)
+  | tupleCons f r, tupleCons g s, tupleCons h t =>
+    tupleCons (componentProduct rx ry f g h) (componentProduct rx ry r s t)
+  | powerOne f, powerOne g, powerOne h => powerOne (componentProduct rx ry f g h)
+  | powerCons f r, powerCons g s, powerCons h t =>
+    powerCons (componentProduct rx ry f g h) (componentProduct rx ry r s t)
+  | r, _, _ => r
+
+/-- `copy(x, full)`: `Container::_copy_content` returns for `this == &x` (and `MemoryPool::copy` for equal
 pointers); otherwise every array is copied -/
-def copy (alias : Bool) (r x : MVec α) : MVec α := if alias then r else map2 (fun r x => List.zipWith (fun _ xi => xi) r x) r x
-/-- `Container::format`: `MemoryPool::set_memory` on every array -/
-def format (v : α) (r : MVec α) : MVec α := map1 (fun d => d.map fun _ => v) r
-def dot (alias : Bool) (x y : MVec α) : α := red2 (dotK alias) x y
-def tripleDot (xy xz yz : Bool) (x y z : MVec α) : α := red3 (tdotK xy xz yz) x y z
+def copy (alias : Bool) : MVec α → MVec α → MVec α
+  | dense r, dense x => dense (if alias then r else List.zipWith (fun _ xi => xi) r x)
+  | blocked b r, blocked _ x => blocked b (if alias then r else List.zipWith (fun _ xi => xi) r x)
+  | tupleOne f, tupleOne g => tupleOne (copy alias f g)
+  | tupleCons f r, tupleCons g s => tupleCons (copy alias f g) (copy alias r s)
+  | powerOne f, powerOne g => powerOne (copy alias f g)
+  | powerCons f r, powerCons g s => powerCons (copy alias f g) (copy alias r s)
+  | r, _ => r
+
+/-- `format(value)`: `MemoryPool::set_memory` on every array -/
+def format (v : α) : MVec α → MVec α
+  | dense d => dense (d.map fun _ => v)
+  | blocked b d => blocked b (d.map fun _ => v)
+  | tupleOne f => tupleOne (format v f)
+  | tupleCons f r => tupleCons (format v f) (format v r)
+  | powerOne f => powerOne (format v f)
+  | powerCons f r => powerCons (format v f) (format v r)
+
+/-- `dot(x)`: `first().dot(x.first()) + rest().dot(x.rest())` -/
+def dot (alias : Bool) : MVec α → MVec α → α
+  | dense x, dense y => dotK alias x y
+  | blocked _ x, blocked _ y => dotK alias x y
+  | tupleOne f, tupleOne g => dot alias f g
+  | tupleCons f r, tupleCons g s => dot alias f g + dot alias r s
+  | powerOne f, powerOne g => dot alias f g
+  | powerCons f r, powerCons g s => dot alias f g + dot alias r s
+  | _, _ => 0
+
+/-- `triple_dot(x, y)` -/
+def tripleDot (xy xz yz : Bool) : MVec α → MVec α → MVec α → α
+  | dense x, dense y, dense z => tdotK xy xz yz x y z
+  | blocked _ x, blocked _ y, blocked _ z => tdotK xy xz yz x y z
+  | tupleOne f, tupleOne g, tupleOne h => tripleDot xy xz yz f g h
+  | tupleCons f r, tupleCons g s, tupleCons h t => tripleDot xy xz yz f g h + tripleDot xy xz yz r s t
+  | powerOne f, powerOne g, powerOne h => tripleDot xy xz yz f g h
+  | powerCons f r, powerCons g s, powerCons h t => tripleDot xy xz yz f g h + tripleDot xy xz yz r s t
+  | _, _, _ => 0
 
 /-- `norm2sqr()`: the leaves use the fallback `Math::sqr(norm2())`, tuple/power vectors add up -/
 def norm2sqr (sqrt : α → α) : MVec α → α
